@@ -185,7 +185,7 @@ def operator_in_force_below(parent):
     return parent.last_spine_operator_node
 
 
-@contract(IMP + '_compute_spine_operator_token', props=['C02', 'C06', 'C08'])
+@contract(IMP + '_compute_spine_operator_token', props=['C02', 'C06', 'C08', 'C10'])
 class compute_spine_operator_token:
     """A spine-operator cell: a fresh node below the cell above (same header); '*^' / '*+' give two paths, '*-' none, '*v' one path
     unless the cell to the left is a '*v' of the same spine (then the join continues); the cancelled operator is recorded."""
@@ -247,6 +247,14 @@ class compute_spine_operator_token:
         if pending is None or (column_content != '*v' and column_content != '*-'):
             return True
         return pending.token.cancelled_at_stage == self._tree_stage
+
+    def post_signatures_in_force_come_from_the_cell_above(self, column_index):
+        # the new cell starts from the signatures in force at the cell above it on its own path (its own copy of that table) -- not from
+        # those of the operator that opened the split, which the voices may have replaced since (C10: the clef in force)
+        parent = self._prev_stage_parents[column_index]
+        node = parent.children[-1]
+        return conj(node.last_signature_nodes is not parent.last_signature_nodes,
+                    len(node.last_signature_nodes.nodes) == len(parent.last_signature_nodes.nodes))
 
     def post_operator_in_force(self, column_index):
         # the new cell descends from the operator in force below the cell above: that cell itself when it is an operator (two operator
